@@ -41,7 +41,7 @@ func fdStart(root string, folders []string) *LspServer {
 	return l
 }
 
-func fdAsk(l *LspServer, mainF, utilF string, withUtil bool) []string {
+func fdAsk(l *LspServer, mainF, utilF string, withUtil bool, utilText string) []string {
 	ctx := context.Background()
 	var out []string
 	um := lsp.DocumentURI("file://" + mainF)
@@ -77,6 +77,16 @@ func fdAsk(l *LspServer, mainF, utilF string, withUtil bool) []string {
 	if withUtil {
 		uu := lsp.DocumentURI("file://" + utilF)
 		_ = l.TextDocumentDidOpen(ctx, lsp.DidOpenTextDocumentParams{TextDocument: lsp.TextDocumentItem{URI: uu, Text: fdUtil}})
+		if utilText != fdUtil {
+			// the buffer has an unsaved edit
+			_ = l.TextDocumentDidChange(ctx, lsp.DidChangeTextDocumentParams{
+				TextDocument:   lsp.VersionedTextDocumentIdentifier{TextDocumentIdentifier: lsp.TextDocumentIdentifier{URI: uu}},
+				ContentChanges: []lsp.TextDocumentContentChangeEvent{{Text: utilText}}})
+		}
+		syms, _ := l.TextDocumentSymbol(ctx, lsp.DocumentSymbolParams{TextDocument: lsp.TextDocumentIdentifier{URI: uu}})
+		var flat []string
+		sessOutline(syms, 0, &flat)
+		out = append(out, "S-util="+sessSort(flat))
 		def(uu, fdUtil, "q7 = game_global", 7, "D-game_global")
 		line, col, _ := sessPos(fdUtil, "q8 = pl", 7)
 		res, _ := l.TextDocumentComplete(ctx, lsp.CompletionParams{TextDocumentPositionParams: lsp.TextDocumentPositionParams{TextDocument: lsp.TextDocumentIdentifier{URI: uu}, Position: lsp.Position{Line: uint32(line), Character: uint32(col)}}})
@@ -88,6 +98,22 @@ func fdAsk(l *LspServer, mainF, utilF string, withUtil bool) []string {
 		}
 		out = append(out, "C-pl="+sessSort(v))
 	}
+	return out
+}
+
+// fdAskKeep: as fdAsk on the server with the history; a document that is already open with an unsaved edit is
+// left as it is (opening it again would replace the buffer)
+func fdAskKeep(l *LspServer, mainF, utilF string, withUtil bool, utilText string) []string {
+	if utilText == fdUtil || !withUtil {
+		return fdAsk(l, mainF, utilF, withUtil, utilText)
+	}
+	out := fdAsk(l, mainF, utilF, false, utilText)
+	ctx := context.Background()
+	uu := lsp.DocumentURI("file://" + utilF)
+	syms, _ := l.TextDocumentSymbol(ctx, lsp.DocumentSymbolParams{TextDocument: lsp.TextDocumentIdentifier{URI: uu}})
+	var flat []string
+	sessOutline(syms, 0, &flat)
+	out = append(out, "S-util="+sessSort(flat))
 	return out
 }
 
@@ -108,8 +134,15 @@ func VerifRun_Folders() {
 		return
 	}
 	ctx := context.Background()
+	utilText := fdUtil
 	if verifParamOr("OPENBEFORE", 1) == 1 && verifBool("fileOfTheFolderOpenBefore") {
 		_ = l.TextDocumentDidOpen(ctx, lsp.DidOpenTextDocumentParams{TextDocument: lsp.TextDocumentItem{URI: lsp.DocumentURI("file://" + utilF), Text: fdUtil}})
+		if verifParamOr("UNSAVED", 1) == 1 && verifBool("withAnUnsavedEdit") {
+			utilText = "function typed_before() end\n" + fdUtil
+			_ = l.TextDocumentDidChange(ctx, lsp.DidChangeTextDocumentParams{
+				TextDocument:   lsp.VersionedTextDocumentIdentifier{TextDocumentIdentifier: lsp.TextDocumentIdentifier{URI: lsp.DocumentURI("file://" + utilF)}},
+				ContentChanges: []lsp.TextDocumentContentChangeEvent{{Text: utilText}}})
+		}
 	}
 	fd := lsp.WorkspaceFolder{URI: "file://" + shared, Name: "shared"}
 	_ = l.WorkspaceChangeWorkspaceFolders(ctx, lsp.DidChangeWorkspaceFoldersParams{Event: lsp.WorkspaceFoldersChangeEvent{Added: []lsp.WorkspaceFolder{fd}}})
@@ -119,7 +152,7 @@ func VerifRun_Folders() {
 		present = false
 	}
 	verifReach("folders")
-	got := fdAsk(l, mainF, utilF, present)
+	got := fdAskKeep(l, mainF, utilF, present, utilText)
 	c08view = map[string]string{}
 	folders := []string{game}
 	if present {
@@ -130,7 +163,7 @@ func VerifRun_Folders() {
 		verifViolation("", "harness: initialize of the fresh server failed")
 		return
 	}
-	want := fdAsk(f, mainF, utilF, present)
+	want := fdAsk(f, mainF, utilF, present, utilText)
 	verifReach("compared")
 	for i := range got {
 		if i < len(want) && got[i] != want[i] {
